@@ -539,6 +539,11 @@ class _CompressionMiddleware:
                 title="Unsupported Content-Encoding",
                 description=f"Content-Encoding {content_encoding!r} is not supported by this server",
             )
+        if req_enc is Encoding.IDENTITY:
+            # "identity" names the absence of a transform, so the body is
+            # already the plain request (still bounded by the wire cap above).
+            # It is not a codec an operator can switch off: refuse nothing.
+            return
         if req_enc not in self._decode:
             raise falcon.HTTPUnsupportedMediaType(
                 title="Unsupported Content-Encoding",
